@@ -44,6 +44,9 @@ FAMILIES = {
     "n+n": ([("q1", None, "NORMAL"), ("q1", None, "NORMAL")], ["ta"], {}),
     "topics": ([("q1", ["ta"], "NORMAL"), ("q1", ["tb"], "NORMAL")], ["ta", "tb"], {}),
     "2q": ([("q1", None, "NORMAL"), ("q2", None, "NORMAL"), ("q2", None, "DEAD")], ["ta"], {}),
+    # queue_flush / queue_declare / queue_delete between the other calls: two queues, one of them flushed
+    "flush": ([("q1", None, "NORMAL"), ("q2", None, "NORMAL"), ("q2", None, "DEAD")], ["ta"],
+              {"weights": {"flush": 1, "declare": 1, "delete": 1, "enq": 6}, "max_ids": 12, "nops": 36}),
     "fifo1": ([("q1", ["ta", "tb"], "NORMAL")], ["ta", "tb", "tc"], {"fifo_only": True, "max_ids": 14, "nops": 45,
               "weights": {"enq": 6, "consume": 5, "finish": 0, "sleep": 1}}),
     "fifoprio": ([("q1", None, "NORMAL")], ["ta"], {"fifo_only": True, "max_ids": 12, "nops": 40, "prios": [1, 5, 9],
@@ -64,7 +67,7 @@ FAMILIES = {
               "sleeps_ms": [1, 249, 250, 251, 998, 1000, 1002], "weights": {"consume": 6}}),
 }
 PER_PROPERTY = {
-    "C01": ["n", "n+x", "n+d", "n+n", "topics", "2q", "same-due"],
+    "C01": ["n", "n+x", "n+d", "n+n", "topics", "2q", "same-due", "flush"],
     "C05": ["delay", "latency", "n+d", "same-due"],
     "C12": ["ttl", "n+x", "n"],
     "C14": ["n+n", "topics", "n+x", "2q"],
@@ -85,6 +88,15 @@ def run(pid: str, tier: str, seed: int, *, replay: dict | None = None) -> int:
                "loop step) with task cancellation injected there; a case is non-trivial if at least one message was "
                "consumed; distinct = distinct (family, seed, injection point) with distinct event sequences")
     ck.trusted.append("in-memory broker: all real code; projection of DummyQueue.simple/delayed/dead/processing")
+    if replay is not None and replay.get("check") in ("suite", "replay"):
+        # these parts are not driven by a scenario: run the part again
+        if replay["check"] == "suite":
+            from checks import suite_traces
+            suite_traces.run_part(ck, "thorough")
+        else:
+            from checks import replay_inmem
+            replay_inmem.run_part(ck, "quick", seed)
+        return ck.finish()
     # ---- 1. the contract itself ------------------------------------------------------------
     if replay is None:
         cfg = "MC_BrokerAbs_quick.cfg" if tier == "quick" else "MC_BrokerAbs_thorough.cfg"
@@ -97,9 +109,15 @@ def run(pid: str, tier: str, seed: int, *, replay: dict | None = None) -> int:
         ck.add_tlc(r, f"BrokerAbs contract, {cfg}: Conservation, OneHolder, NorderSound, NeverEarly, "
                       "NoExpiredDelivery, NotDroppedWhileLive, OnlyViaDelayed, AckRemoves")
         if pid == "C01":
+            # the contract with two queues and queue_flush / queue_delete
+            rf = tlc.run_tlc("MC_BrokerAbs", "MC_BrokerAbs_flush.cfg", timeout=3000)
+            if not rf.ok:
+                ck.model_violation(rf, "BrokerAbs (flush)")
+            ck.add_tlc(rf, "BrokerAbs contract with two queues and Flush, MC_BrokerAbs_flush.cfg: the invariants plus FlushLocal, FlushComplete, GoneIsFinal")
             # the implementation-shaped specification of the in-memory broker: its own invariants, and that it REFINES
             # the contract (so the contract's exhaustive results speak for that algorithm)
-            for cfg2 in (["MC_BrokerInMem_quick.cfg"] if tier == "quick" else ["MC_BrokerInMem_thorough.cfg", "MC_BrokerInMem_thorough2.cfg"]):
+            for cfg2 in (["MC_BrokerInMem_quick.cfg", "MC_BrokerInMem_flushq.cfg"] if tier == "quick"
+                         else ["MC_BrokerInMem_thorough.cfg", "MC_BrokerInMem_thorough2.cfg", "MC_BrokerInMem_flush.cfg"]):
                 r2 = tlc.run_tlc("MC_BrokerInMem", cfg2, timeout=3000)
                 if not r2.ok:
                     ck.model_violation(r2, "BrokerInMem (refinement of BrokerAbs)")
@@ -216,6 +234,9 @@ def run(pid: str, tier: str, seed: int, *, replay: dict | None = None) -> int:
             from checks import replay_inmem
             replay_inmem.run_part(ck, tier, seed)
             lap("BrokerInMem behaviours replayed against the real broker")
+            from checks import suite_traces
+            suite_traces.run_part(ck, tier)
+            lap("executions of the repository's own test suite validated")
         if pid == "C12":
             from checks import worker_checks
             worker_checks.extra_c12(ck, tier, random.Random(seed))
